@@ -57,6 +57,15 @@ def run(ctx):
     binp = ctx.go_build("./cmd/c10")
     if ctx.replay:
         d = json.load(open(ctx.replay))["replay"]
+        if isinstance(d, dict) and "wide" in d:
+            # a wide-map case: the harness runs them after the histories; an empty history file suffices
+            hf = ctx.path("replay_h.ndjson"); open(hf, "w").write("")
+            of = ctx.path("replay_res.json")
+            ctx.run([binp, hf, of, "16", json.dumps(KEYS10)])
+            res = json.load(open(of))
+            for v in res.get("violations") or []:
+                ctx.violation(v["key"], v["what"], v.get("replay"))
+            finish(ctx, LEVEL, dict(traces_validated_against_impl=res.get("wide_maps_checked", 0), samples=[d]))
         hist = d["history"] if isinstance(d, dict) and "history" in d else d
         hf = ctx.path("replay_h.ndjson"); open(hf, "w").write(json.dumps(hist) + "\n")
         of = ctx.path("replay_res.json")
@@ -74,7 +83,7 @@ def run(ctx):
         runs.append(("exh2", c01.cfg_text("SMT_q", DumpEvery=1), KEYS6, dict(workers=8)))
         runs.append(("exh3", c01.cfg_text("SMT_q", Depth=3, NV=1, DumpEvery=40), KEYS6, dict(workers=16, timeout=3000)))
         runs.append(("sim", c01.cfg_text("SMT_sim", Depth=10), KEYS10, dict(workers=1, simulate=4000, depth=12, timeout=3000)))
-    tot = dict(histories=0, steps=0, roots_compared=0, distinct_maps=0, proofs_verified=0, tampered_proofs_rejected=0, other_root_rejected=0)
+    tot = dict(wide_maps_checked=0, histories=0, steps=0, roots_compared=0, distinct_maps=0, proofs_verified=0, tampered_proofs_rejected=0, other_root_rejected=0)
     sample = None
     for name, text, kt, kw in runs:
         res = one(ctx, binp, name, text, kt, **kw)
@@ -84,9 +93,9 @@ def run(ctx):
             ctx.violation(v["key"], v["what"], v.get("replay"))
         if sample is None:
             sample = dict(config=name, keytab=kt)
-    if not ctx.violations and (tot["proofs_verified"] < 100 or tot["tampered_proofs_rejected"] < 100):
+    if not ctx.violations and (tot["proofs_verified"] < 100 or tot["tampered_proofs_rejected"] < 100 or tot["wide_maps_checked"] < 4):
         raise Inconclusive("too few proofs exercised: vacuous")
-    cov = dict(traces_validated_against_impl=tot["histories"], samples=[sample], replayed_batches=tot["steps"],
+    cov = dict(wide_maps_checked=tot.get("wide_maps_checked", 0), traces_validated_against_impl=tot["histories"], samples=[sample], replayed_batches=tot["steps"],
                roots_compared=tot["roots_compared"], distinct_maps=tot["distinct_maps"], honest_proofs_verified=tot["proofs_verified"],
                disagreeing_tampered_proofs_rejected=tot["tampered_proofs_rejected"], disagreeing_other_root_rejected=tot["other_root_rejected"],
                rule="TLC state = (map, history); every dumped history is replayed on the real trie with 4 key embeddings and 2 stores")
